@@ -73,6 +73,28 @@ def field_scenario(sid, field, n):
     return s
 
 
+# the implementation harness runs with a small stack: memory that is taken from the stack per entry or per line and only
+# given back when a function returns shows at sizes the quick tier can afford
+STACK_KB = 1024
+
+
+def many_scenario(sid, count, n):
+    """`count` entries that all carry comments of n bytes before the key and behind the value; read, written, read back"""
+    s = Scenario(sid, {"field": "many", "n": n, "count": count})
+    parts = []
+    for i in range(count):
+        parts.append(h(b"#") + "+" + run_token(n, 0x63) + "+" + h(b"\nk%d=v #" % i) + "+" + run_token(n, 0x64) + "+" + h(b"\n"))
+    s.add("F", h(b"/f.conf"), "+".join(parts))
+    s.add("RF", 0, h(b"/f.conf"), h(b"="), h(b"#"))
+    s.add("EXTSUM", 0, "-", h(b"k%d" % (count - 1)))
+    s.mkdir(b"/o")
+    s.add("WSUM", 0, h(b"/o"), h(b"w"))
+    s.add("RF", 1, h(b"/o/w"), h(b"="), h(b"#"))
+    s.add("EXTSUM", 1, "-", h(b"k0"))
+    s.add("EXTSUM", 1, "-", h(b"k%d" % (count - 1)))
+    return s
+
+
 def name_scenario(sid, kind, n):
     """file names up to NAME_MAX and paths around PATH_MAX"""
     s = Scenario(sid, {"field": kind, "n": n})
@@ -173,6 +195,8 @@ def scenarios(tier, rng):
     for n in (NAME_MAX - 1, NAME_MAX):
         out.append(name_scenario("fn_%d" % n, "filename", n))
         out.append(name_scenario("dn_%d" % n, "dirname", n))
+    out.append(many_scenario("many_40x64k", 40, 65536))
+    out.append(many_scenario("many_400x8k", 400, BUFSIZ))
     for n in (NAME_MAX - 1, NAME_MAX):
         out.append(name_scenario("tw_%d" % n, "twins", n))
         out.append(name_scenario("tn_%d" % n, "twins_nosuffix", n))
@@ -243,6 +267,13 @@ def oracle(s, lines):
             return "%s of %d bytes: %r" % (f, n, lines[0])
         if lines[1] != "path " + h(m["path"]):
             return "%s of %d bytes: path %r" % (f, n, lines[1][:80])
+        return None
+    if f == "many":
+        exts = [l for l in lines if l.startswith("extsum ")]
+        w = " cb %s" % summ(n, 0x63)
+        w2 = " ca %s" % summ(n, 0x64)
+        if len(exts) != 3 or any(not e.startswith("extsum E0") or w not in e or w2 not in e for e in exts):
+            return "%d entries with comments of %d bytes each: read, written and read back gives %r" % (m["count"], n, [e[:80] for e in exts])
         return None
     if f in ("twins", "twins_nosuffix"):
         want = ["rd E0 obj", "get E0 " + h(b"1"), "get E0 " + h(b"2"), "get E0 " + h(b"high"), "get E5 "]
